@@ -19,6 +19,7 @@ from cxxheaderparser.options import ParserOptions
 from cxxheaderparser.parser import CxxParser
 from cxxheaderparser.simple import SimpleCxxVisitor, parse_file, parse_string
 
+TECHNIQUE = 'Lean 4: repr round-trip theorem over the dataclass schemas regenerated from the code (kernel-checked schema well-formedness), parse_file = parse_string ∘ decode on the entry model; correspondence of the repr text; entry-point oracle on real files'
 LEAN_TARGET = "CxxModel.Props.C20"
 THEOREMS = ["Cxx.C20_parse_file_is_parse_string", "Cxx.C20_parse_file_decode_error", "Cxx.C20_preprocessor_once",
             "Cxx.C20_schema_ok", "Cxx.C20_repr_roundtrip", "Cxx.repr_roundtrip"]
